@@ -364,6 +364,12 @@ impl C08 {
         let nops = if self.small { rng.range(6, 12) } else { rng.range(60, 200) };
         let mut tail: Vec<String> = Vec::new();
         for step in 0..nops {
+            if !self.small && rng.below(16) == 0 {
+                if let Some(d) = perturb(&mut ax, rng, &Perturb { areas: false, hooks: true, clone: true }) {
+                    col.violation_case("neutral-operation-visible", k, d, json!(null));
+                    return;
+                }
+            }
             let ai = rng.below(model.areas.len() as u64) as usize;
             let op = rng.below(13);
             let before = ax.verif_areas();
